@@ -386,6 +386,14 @@ def create_sets_lang(ctx, rule):
                     vo = ctx.model.origin(b, sy.rvalue(st["rv"]))
                     if vo[0] == "param" and vo[1] == root:
                         ok = True
+            # struct-literal form: Store { lang, ..Store::new() }
+            if st["k"] == "assign" and st["rv"]["k"] == "agg" and st["rv"].get("did", "").endswith("::Store") and not b.blocks[bi]["cleanup"]:
+                e = sy.rvalue(st["rv"])
+                d = dict(zip(e[4], e[3]))
+                if "lang" in d:
+                    vo = ctx.model.origin(b, d["lang"])
+                    if vo[0] == "param" and vo[1] == root:
+                        ok = True
         if ok:
             ctx.ok(rule, key, b.where(), "%s builds a fresh Store and sets its language from the parameter" % root, nontrivial=True)
         else:
